@@ -1031,6 +1031,64 @@ def _fromimport_fields(st):
     return {"names": st.alloc(HList(items=["n0", ("n1", "a1")]))}
 
 
+def global_context_lookups(task, tier, seed):
+    """environment globals installed by jinja itself (defaults and the built-in extensions) that receive the render context and
+    look a name up in it BY LITERAL: using such a global in a template makes the template depend on that context variable, which
+    find_undeclared_variables must report (the global's own name is exempt as an environment global, the looked-up name is not)"""
+    import jinja2.ext as X
+    from jinja2 import Environment
+    from jinja2.utils import _PassArg
+    env = Environment(extensions=[X.InternationalizationExtension, X.ExprStmtExtension, X.LoopControlExtension, X.DebugExtension])
+    fails = []
+    checked = 0
+    for gname, g in sorted(env.globals.items()):
+        f = inspect.unwrap(g) if callable(g) else None
+        if not inspect.isfunction(f) or not str(getattr(f, "__module__", "")).startswith("jinja2") or _PassArg.from_obj(g) is not _PassArg.context:
+            continue
+        try:
+            node, _ = extract.function_ast(f)
+        except LookupError:
+            continue
+        ctx = node.args.args[0].arg if node.args.args else (node.args.posonlyargs[0].arg if node.args.posonlyargs else None)
+        lits = set()
+        for n in ast.walk(node):
+            if isinstance(n, ast.Call) and isinstance(n.func, ast.Attribute) and n.func.attr in ("resolve", "resolve_or_missing", "get", "__getitem__") \
+                    and isinstance(n.func.value, ast.Name) and n.func.value.id == ctx and n.args and isinstance(n.args[0], ast.Constant) and isinstance(n.args[0].value, str):
+                lits.add(n.args[0].value)
+            if isinstance(n, ast.Subscript) and isinstance(n.value, ast.Name) and n.value.id == ctx and isinstance(n.slice, ast.Constant) and isinstance(n.slice.value, str):
+                lits.add(n.slice.value)
+        if not lits:
+            continue
+        checked += 1
+        reported = M.find_undeclared_variables(env.parse("{{ %s('x') }}" % gname))
+        missing = sorted(x for x in lits if x not in reported and x not in env.globals)
+        if missing:
+            fails.append(f"[{gname}:{','.join(missing)}] the environment global {gname!r} ({f.__module__}.{f.__name__}) resolves {missing} from the render context, but "
+                         f"find_undeclared_variables('{{{{ {gname}(\'x\') }}}}') reports {sorted(reported)}")
+    return [Res("C32.globals.context_lookups_reported", "refuted" if fails else "discharged", "table+native", 0, "; ".join(fails[:3])[:800], "table",
+                witness={"failures": fails[:4]} if fails else None)]
+
+
+def native_global_lookup(w=None):
+    from jinja2 import Environment
+    from jinja2.runtime import Context
+    looked = []
+
+    class RC(Context):
+        def resolve_or_missing(self, key):
+            looked.append(key)
+            return super().resolve_or_missing(key)
+
+    env = Environment(extensions=["jinja2.ext.i18n"])
+    env.context_class = RC
+    src = '{{ _("hello") }}'
+    reported = M.find_undeclared_variables(env.parse(src))
+    out = env.from_string(src).render(gettext=lambda s: s.upper())
+    bad = sorted(n for n in set(looked) if n not in reported and n not in env.globals)
+    return (bool(bad), f"{src} rendered {out!r}: looked up {bad} from the render context, find_undeclared_variables reported {sorted(reported)}" if bad
+            else "every context lookup made through an environment global is reported")
+
+
 def native_standin(which):
     def fn(task, tier, seed):
         t0 = time.time()
@@ -1067,6 +1125,8 @@ TASKS = (
        for t in all_visitor_tasks("C32", "C32.refs.sites.others", sites_pred(f"visit_{nm}"), replay_fn=native_refs, only=[nm], buffers=(None,), configure=_cfg_visitors)]
     + [FnTask("C32", "C32.refs.sites.tables", sites_tables, "table", native_refs)]
     + [_with_key(FnTask("C32", f"C32.refs.yield.{c.__name__}", refs_yield(c), "vc", native_refs), yield_key) for c in (N.Extends, N.Include, N.Import, N.FromImport)]
+    + [_with_key(FnTask("C32", "C32.globals.context_lookups", global_context_lookups, "table", native_global_lookup),
+                 lambda r: ",".join(sorted(set(re.findall(r"\[(\w+:[\w,]+)\]", r.detail or "")))) or "?")]
     + [FnTask("C32", "C32.native.undeclared", native_standin("undeclared"), "bounded", native_undeclared),
        FnTask("C32", "C32.native.refs", native_standin("refs"), "bounded", native_refs)]
 )
